@@ -514,3 +514,7 @@ def run(ctx):
     # expression (shared with C01.R2) - a shortcut for "imminent" events files one of two equal-time events elsewhere
     from .C01 import r2_bucket_index
     r2_bucket_index(ctx, rule='C03.R5')
+    # (R6) a message sent for the current instant is walked inline, only a send for a later instant becomes an event of its own
+    # (shared with C08.R7): a detour through the event set lets what is emitted after it for the same instant overtake it
+    from .C08 import r7_delayed_send
+    r7_delayed_send(ctx, rule='C03.R6')
